@@ -39,7 +39,7 @@ func init() {
 		Subs: []*run.Sub{
 			{Name: "paths", N: func(t string) uint64 {
 				if t == "thorough" {
-					return 12_000_000
+					return 60_000_000
 				}
 				return 400_000
 			}, Run: c05Path, Min: min,
